@@ -199,6 +199,10 @@ func (t *trTranslator) leanType(from *trUnit, ty types.Type, pos token.Pos) stri
 		if x.TypeArgs() != nil && x.TypeArgs().Len() > 0 {
 			parts := []string{base}
 			for i := 0; i < x.TypeArgs().Len(); i++ {
+				if f, ok := trIdentityField(x.TypeArgs().At(i)); ok {
+					parts = append(parts, t.leanType(from, f.Type(), pos)) // a pointer identified with one of its fields (trIdentityKey)
+					continue
+				}
 				parts = append(parts, t.leanType(from, x.TypeArgs().At(i), pos))
 			}
 			return "(" + strings.Join(parts, " ") + ")"
@@ -214,6 +218,9 @@ func (t *trTranslator) leanType(from *trUnit, ty types.Type, pos token.Pos) stri
 	case *types.Slice:
 		return "(List " + t.leanType(from, x.Elem(), pos) + ")"
 	case *types.Map:
+		if f, ok := trIdentityField(x.Key()); ok {
+			return "(AMap " + t.leanType(from, f.Type(), pos) + " " + t.leanType(from, x.Elem(), pos) + ")"
+		}
 		if _, isPtr := x.Key().Underlying().(*types.Pointer); isPtr && !trIsInterned(x.Key()) {
 			trFail(pos, "map keyed by the pointer type %s is outside the subset", x.Key())
 		}
